@@ -106,7 +106,9 @@ func c13Facts(fc *facts) {
 //	      finishSnapshotAsync inside its stateMu section (after a top-level `stateMu.Lock()` statement and before the
 //	      next top-level `stateMu.Unlock()`), the go statement additionally inside an `if !<recv>.state.announcing`
 //	      whose body sets the flag;
-//	(iii) announceRetained takes its items from the front of the queue, and clears `announcing`, only between
+//	(iv)  FIFO: one `q = append(q, x)` (append at the end), one `x := q[0]`, one `q = q[1:]`, no other use of the queue as
+//	      an assignment target or indexed source;
+//	(iii) announceRetained takes its items from the queue, and clears `announcing`, only between
 //	      stateMu.Lock() and stateMu.Unlock(), and sends outside the lock, one item per loop iteration.
 func init() { extraFactFns = append(extraFactFns, c13AnnouncerFact) }
 
@@ -270,6 +272,47 @@ func c13AnnouncerFact(fc *facts) {
 		if sends != 1 {
 			fail()
 		}
+	}
+	// (iv) FIFO: the queue is appended to at the END (`q = append(q, x)` with q on both sides) and the announcer takes
+	// the FRONT (`x := q[0]` and `q = q[1:]`); nothing else is assigned to the queue
+	isQueue := func(e ast.Expr) bool {
+		s, isSel := e.(*ast.SelectorExpr)
+		return isSel && s.Sel.Name == "retainedToAnnounce"
+	}
+	appendsAtEnd, takesFront, dropsFront, otherQueueAssign := 0, 0, 0, 0
+	for _, fd := range []*ast.FuncDecl{finish, announce} {
+		ast.Inspect(fd.Body, func(x ast.Node) bool {
+			a, isAssign := x.(*ast.AssignStmt)
+			if !isAssign || len(a.Lhs) != 1 || len(a.Rhs) != 1 {
+				return true
+			}
+			switch {
+			case isQueue(a.Lhs[0]):
+				if c, isCall := a.Rhs[0].(*ast.CallExpr); isCall && selName(c.Fun) == "append" && len(c.Args) == 2 && isQueue(c.Args[0]) && c.Ellipsis == token.NoPos {
+					appendsAtEnd++
+				} else if sl, isSlice := a.Rhs[0].(*ast.SliceExpr); isSlice && isQueue(sl.X) && sl.High == nil && sl.Max == nil {
+					if v, isLit := litVal(sl.Low); isLit && v == 1 {
+						dropsFront++
+					} else {
+						otherQueueAssign++
+					}
+				} else {
+					otherQueueAssign++
+				}
+			default:
+				if ix, isIndex := a.Rhs[0].(*ast.IndexExpr); isIndex && isQueue(ix.X) {
+					if v, isLit := litVal(ix.Index); isLit && v == 0 {
+						takesFront++
+					} else {
+						otherQueueAssign++
+					}
+				}
+			}
+			return true
+		})
+	}
+	if appendsAtEnd != 1 || takesFront != 1 || dropsFront != 1 || otherQueueAssign != 0 {
+		fail()
 	}
 	b := uint64(0)
 	if ok {
